@@ -3,6 +3,8 @@ import NodisVerif.Proofs.C16Wire
 import NodisVerif.Proofs.C16Bulk
 import NodisVerif.Proofs.C16Full
 import NodisVerif.Props.C08
+import NodisVerif.Proofs.RespWriterRun
+import NodisVerif.Proofs.RespWriterServe
 /-
   C16 — exactly one well-formed RESP reply per command, in order; pipelines stay in sync.
 
@@ -623,5 +625,432 @@ example :
     [[Tok.int 2], [Tok.arr 2, Tok.bulk [97], Tok.bulk [98]], [Tok.int 1], [Tok.arr 2, Tok.bulk [109], Tok.bulk [49]],
      [Tok.int 1], [Tok.arr 2, Tok.bulk [102], Tok.bulk [118]], [Tok.err 1], [Tok.bulk [80, 79, 78, 71]]] := by
   decide +kernel
+
+/-! ## the reply writer's buffer (redis/resp.go `type Writer`, Model/RespWriter.lean) — work package F
+
+  The theorems above speak about reply TOKENS.  Below, the byte-level mechanics that carry the tokens —
+  `buf`, `w`, `grow`, `writeByte`, `writeBytes`, `Flush`, every `Write*` method — are shown to refine the
+  abstract buffered writer of Spec/RespWriterSpec.lean (pending bytes, delivered bytes, the error flag),
+  and the result is composed with `pipeline_in_sync_full`.  `WriterInv s` is `s.w ≤ s.buf.size` (named
+  `WriterInv` because `Inv` is taken by core's inverse notation class). -/
+
+section Writer
+open NodisVerif.RespWriter NodisVerif.Spec.RespWriterSpec
+open NodisVerif.Proofs.RespWriter (Refines)
+
+/-- a fresh writer satisfies the invariant (NewWriter: 4096 zero bytes, w = 0) -/
+theorem writer_inv_new : WriterInv RespWriter.new := Proofs.RespWriter.new_inv
+
+/-- EVERY exported method, from EVERY state satisfying the invariant: the call does what the abstract
+    buffered writer does (same reply, abstract state = abstract step), keeps the invariant, never shrinks
+    the array and grows it at most to `max (old size) (defaultSize + 2·w')`; it leaves the model exactly
+    when the float text is outside the model. In particular no branch panics. -/
+theorem writer_refines_spec (s : Writer) (c : Call) (h : WriterInv s) :
+    match AW.step (abs s) c with
+    | none => step s c = .outside
+    | some (a', r) => ∃ s', step s c = .ok (s', r) ∧ abs s' = a' ∧ WriterInv s' ∧ s.buf.size ≤ s'.buf.size ∧
+        s'.buf.size ≤ max s.buf.size (defaultSize + 2 * s'.w) :=
+  Proofs.RespWriter.step_refines s c h
+
+/-- the invariant is preserved by every method -/
+theorem writer_inv_preserved (s s' : Writer) (c : Call) (r : Reply) (h : WriterInv s) (e : step s c = .ok (s', r)) :
+    WriterInv s' := by
+  have := Proofs.RespWriter.step_refines s c h
+  cases ha : AW.step (abs s) c with
+  | none => rw [ha] at this; rw [this] at e; cases e
+  | some p =>
+    rw [ha] at this
+    obtain ⟨s1, e1, _, hi, _⟩ := this
+    rw [e1] at e; cases e; exact hi
+
+/-- no method panics under the invariant: neither `w.buf[w.w] = b` nor `w.buf[:w.w]` is ever out of range -/
+theorem writer_step_never_panics (s : Writer) (c : Call) (h : WriterInv s) : step s c ≠ .panic := by
+  have := Proofs.RespWriter.step_refines s c h
+  cases ha : AW.step (abs s) c with
+  | none => rw [ha] at this; rw [this]; exact fun h => nomatch h
+  | some p =>
+    rw [ha] at this
+    obtain ⟨s1, e1, _⟩ := this
+    rw [e1]; exact fun h => nomatch h
+
+/-- … hence no sequence of calls on a fresh writer ever panics (any payloads, any sizes, any flush
+    pattern, failing connections included) -/
+theorem writer_never_panics (cs : List Call) : run RespWriter.new cs ≠ .panic :=
+  Proofs.RespWriter.run_never_panics _ Proofs.RespWriter.new_inv cs
+
+/-- the guard is needed: from a state violating the invariant `writeByte` does panic -/
+theorem writer_panics_without_inv :
+    writeByte { buf := #[], w := defaultSize + 1, err := false, sink := #[] } 0 = .panic := by
+  simp [writeByte, grow]
+
+/-- the implementation's run IS the abstract writer's run: defined exactly when the abstract run is,
+    with the abstract state as its abstraction -/
+theorem writer_run_refines (cs : List Call) :
+    match AW.run {} cs with
+    | none => run RespWriter.new cs = .outside
+    | some a' => ∃ s', run RespWriter.new cs = .ok s' ∧ abs s' = a' ∧ WriterInv s' := by
+  have := Proofs.RespWriter.run_refines cs _ Proofs.RespWriter.new_inv
+  rw [Proofs.RespWriter.abs_new] at this
+  cases h : AW.run {} cs with
+  | none => rw [h] at this; exact this
+  | some a' => rw [h] at this; obtain ⟨s', e, h1, h2, _⟩ := this; exact ⟨s', e, h1, h2⟩
+
+/-- total on everything that has an encoding (everything except float text outside the model) -/
+theorem writer_total (cs : List Call) (h : ∀ c ∈ cs, (encode c).isSome) : ∃ s, run RespWriter.new cs = .ok s := by
+  obtain ⟨a', ha⟩ := Proofs.RespWriter.AW.run_some cs h {}
+  have := writer_run_refines cs
+  rw [ha] at this
+  obtain ⟨s', e, _⟩ := this
+  exact ⟨s', e⟩
+
+/-- **writer_bytes**: for EVERY sequence of Write* calls, Flushes, Bytes and HasError on a fresh writer
+    (connection not failing): what has reached the connection followed by what is in the buffer below `w`
+    is exactly the concatenation of the RESP encodings of the calls, in order — byte-exact, whatever the
+    sizes (so also across every `grow`) -/
+theorem writer_bytes (cs : List Call) (s : Writer) (hn : NoFailure cs) (e : run RespWriter.new cs = .ok s) :
+    s.sink.toList ++ s.buf.toList.take s.w = cs.flatMap written := by
+  obtain ⟨h1, _, _⟩ := Proofs.RespWriter.run_ok_abs Proofs.RespWriter.new_inv e
+  rw [Proofs.RespWriter.abs_new] at h1
+  have := Proofs.RespWriter.AW.run_content cs {} (abs s) h1 hn
+  simpa [abs] using this
+
+/-- `Bytes()` returns exactly the pending bytes and `HasError()` the flag of the abstract writer -/
+theorem writer_observers (s : Writer) (h : WriterInv s) :
+    step s .bytes = .ok (s, .bytes (s.buf.toList.take s.w)) ∧ step s .hasError = .ok (s, .flag s.err) := by
+  refine ⟨?_, rfl⟩
+  obtain ⟨s', e, _⟩ := Proofs.RespWriter.bytes_ok s h
+  simp only [RespWriter.step, bytes, Res.bind] at e ⊢
+  simp only [WriterInv] at h
+  simp only [h, if_true] at e ⊢
+  simp [Array.toList_extract]
+
+/-- **flush_exactly_once**: for every interleaving of writes, flushes and observers, a (successful) Flush
+    leaves the connection with exactly everything written before it, once and in order, nothing pending,
+    the write position at 0 and the error flag lowered -/
+theorem flush_exactly_once (pre : List Call) (s : Writer) (hn : NoFailure pre)
+    (e : run RespWriter.new (pre ++ [.flush none]) = .ok s) :
+    s.sink.toList = pre.flatMap written ∧ s.w = 0 ∧ s.err = false := by
+  rw [Proofs.RespWriter.run_append] at e
+  cases h1 : run RespWriter.new pre with
+  | panic => rw [h1] at e; cases e
+  | outside => rw [h1] at e; cases e
+  | ok s1 =>
+    rw [h1] at e
+    simp only [Res.bind] at e
+    have hb := writer_bytes pre s1 hn h1
+    obtain ⟨_, hi, _⟩ := Proofs.RespWriter.run_ok_abs Proofs.RespWriter.new_inv h1
+    obtain ⟨s2, e2, habs, hi2, _⟩ := Proofs.RespWriter.flush_ok_none s1 hi
+    simp only [RespWriter.run, e2] at e
+    cases e
+    have hd := congrArg AW.delivered habs
+    have hp := congrArg AW.pending habs
+    have he := congrArg AW.err habs
+    simp only [abs] at hd hp he
+    refine ⟨by rw [hd]; exact hb, ?_, he⟩
+    have hl := Proofs.RespWriter.pending_length _ hi2
+    simp only [abs] at hl
+    rw [hp] at hl
+    simpa using hl.symm
+
+/-- one Flush in isolation: the chunk handed to the connection is exactly the pending bytes, appended to
+    what was delivered before; a failing connection that takes k bytes gets the first k pending bytes and
+    the writer keeps ALL pending bytes and its flag -/
+theorem flush_delivers_pending (s : Writer) (h : WriterInv s) :
+    (∃ s', step s (.flush none) = .ok (s', .flushed (s.buf.toList.take s.w) false) ∧
+        s'.sink.toList = s.sink.toList ++ s.buf.toList.take s.w ∧ s'.w = 0 ∧ s'.err = false ∧ s'.buf = s.buf) ∧
+    (∀ k, ∃ s', step s (.flush (some k)) = .ok (s', .flushed ((s.buf.toList.take s.w).take k) true) ∧
+        s'.sink.toList = s.sink.toList ++ (s.buf.toList.take s.w).take k ∧ s'.w = s.w ∧ s'.err = s.err ∧ s'.buf = s.buf) := by
+  obtain ⟨buf, w, err, sink⟩ := s
+  simp only [WriterInv] at h
+  constructor
+  · refine ⟨⟨buf, 0, false, sink ++ buf.extract 0 w⟩, ?_, ?_, rfl, rfl, rfl⟩
+    · simp only [RespWriter.step, flush, h, if_true, Res.bind]
+      simp [Array.toList_extract]
+    · simp [Array.toList_extract]
+  · intro k
+    refine ⟨⟨buf, w, err, sink ++ buf.extract 0 (min k w)⟩, ?_, ?_, rfl, rfl, rfl⟩
+    · simp only [RespWriter.step, flush, h, if_true, Res.bind]
+      simp [Array.toList_extract, List.take_take]
+      omega
+    · simp [Array.toList_extract, List.take_take]
+
+/-- the position of the flushes is irrelevant: two call sequences with the same writing calls, each ended
+    by a Flush, deliver the same bytes -/
+theorem flush_position_irrelevant (cs ds : List Call) (s t : Writer) (hc : NoFailure cs) (hd : NoFailure ds)
+    (hw : cs.filter isWrite = ds.filter isWrite)
+    (e1 : run RespWriter.new (cs ++ [.flush none]) = .ok s) (e2 : run RespWriter.new (ds ++ [.flush none]) = .ok t) :
+    s.sink.toList = t.sink.toList := by
+  rw [(flush_exactly_once cs s hc e1).1, (flush_exactly_once ds t hd e2).1,
+    Proofs.RespWriter.written_filter cs, Proofs.RespWriter.written_filter ds, hw]
+
+/-- what a failing connection does to "exactly once" (a limit of the code, not of the proof): the writer
+    keeps all pending bytes after a failed Flush, so the bytes the connection did take are sent again by
+    the next Flush. `+OK\r\n`, a Flush on a connection that takes 3 bytes and fails, a Flush that works:
+    the connection has received `+OK+OK\r\n`. (Serve ignores Flush's error; on TCP a failed write ends
+    the connection, so the duplicate is not observable there.) -/
+theorem flush_failure_resends :
+    ∃ s, run RespWriter.new [.ok, .flush (some 3), .flush none] = .ok s ∧
+      s.sink.toList = Bytes.ofString "+OK+OK\r\n" := by
+  have := writer_run_refines [.ok, .flush (some 3), .flush none]
+  have h : AW.run {} [.ok, .flush (some 3), .flush none] =
+      some { delivered := Bytes.ofString "+OK+OK\r\n", pending := [], err := false } := by decide +kernel
+  rw [h] at this
+  obtain ⟨s, e, ha, _⟩ := this
+  exact ⟨s, e, congrArg AW.delivered ha⟩
+
+/-- growth: the array is always at least `w` long (and never shorter than the initial 4096), and at most
+    `defaultSize + 2·M` where M bounds the number of pending bytes at the end of every call so far — with a
+    Flush after every reply the array stays within 4096 + twice the largest reply -/
+theorem writer_growth_peak (M : Nat) (cs : List Call) (s : Writer)
+    (hM : ∀ pre s1, pre <+: cs → run RespWriter.new pre = .ok s1 → s1.w ≤ M) (e : run RespWriter.new cs = .ok s) :
+    s.w ≤ s.buf.size ∧ defaultSize ≤ s.buf.size ∧ s.buf.size ≤ defaultSize + 2 * M := by
+  obtain ⟨_, hi, hm⟩ := Proofs.RespWriter.run_ok_abs Proofs.RespWriter.new_inv e
+  refine ⟨hi, ?_, ?_⟩
+  · simpa [RespWriter.new] using hm
+  · exact Proofs.RespWriter.run_size_le M cs RespWriter.new s Proofs.RespWriter.new_inv
+      (by simp [RespWriter.new]) hM e
+
+/-- … in particular at most `defaultSize + 2·(all bytes ever written)`, whatever the flush pattern -/
+theorem writer_growth (cs : List Call) (s : Writer) (e : run RespWriter.new cs = .ok s) :
+    s.w ≤ s.buf.size ∧ defaultSize ≤ s.buf.size ∧ s.buf.size ≤ defaultSize + 2 * (cs.flatMap written).length := by
+  refine writer_growth_peak _ cs s ?_ e
+  intro pre s1 hpre hrun
+  obtain ⟨h1, hi, _⟩ := Proofs.RespWriter.run_ok_abs Proofs.RespWriter.new_inv hrun
+  rw [Proofs.RespWriter.abs_new] at h1
+  have h2 := Proofs.RespWriter.AW.run_pending_le pre {} (abs s1) h1
+  rw [Proofs.RespWriter.pending_length s1 hi] at h2
+  obtain ⟨post, rfl⟩ := hpre
+  simp only [List.flatMap_append, List.length_append]
+  have h0 : ({} : AW).pending.length = 0 := rfl
+  rw [h0] at h2
+  omega
+
+/-- the policy, exactly: `writeBytes(bs)` reallocates iff `w + len(bs) >= len(buf)` (note `>=`: also
+    when the chunk would fit exactly), then by exactly `len(bs)`, once — the byte loop never grows -/
+theorem writeBytes_policy (s s' : Writer) (bs : Bytes) (h : WriterInv s) (e : writeBytes s bs = .ok s') :
+    s'.buf.size = if s.w + bs.length ≥ s.buf.size then s.buf.size + bs.length else s.buf.size :=
+  Proofs.RespWriter.writeBytes_size s bs h s' e
+
+/-- … and a growing `writeBytes` leaves exactly the free space it found (the slack is never replenished by it) -/
+theorem writeBytes_free_space (s s' : Writer) (bs : Bytes) (h : WriterInv s) (e : writeBytes s bs = .ok s') :
+    s'.buf.size - s'.w = if s.w + bs.length ≥ s.buf.size then s.buf.size - s.w else s.buf.size - s.w - bs.length :=
+  Proofs.RespWriter.writeBytes_free s bs h s' e
+
+/-- `writeByte` reallocates iff the array is full (`w >= len(buf)`), then by `defaultSize`: the only source of slack -/
+theorem writeByte_policy (s s' : Writer) (b : UInt8) (h : WriterInv s) (e : writeByte s b = .ok s') :
+    s'.buf.size = (if s.w ≥ s.buf.size then s.buf.size + defaultSize else s.buf.size) ∧ s'.w = s.w + 1 :=
+  Proofs.RespWriter.writeByte_size s b h s' e
+
+/-- `grow(n)` keeps every byte of the old array (stale ones beyond `w` too) and appends n zero bytes -/
+theorem grow_copies_everything (s : Writer) (n : Nat) :
+    (grow s n).buf.toList = s.buf.toList ++ List.replicate n 0 ∧ (grow s n).w = s.w ∧
+    (grow s n).err = s.err ∧ (grow s n).sink = s.sink :=
+  ⟨Proofs.RespWriter.grow_buf s n, rfl, rfl, rfl⟩
+
+/-- the calls that write the reply tokens of the token-level model write exactly `render` -/
+theorem writer_encodes_tokens (t : Tok) : encode (callOfTok t) = some (render t) :=
+  Proofs.RespWriter.encode_callOfTok t
+
+/-- **the writer refines the token model**: write the tokens `ts` in order through a fresh writer, with
+    Flushes / Bytes / HasError interleaved at ANY positions (`cs` is any such schedule), flush at the end:
+    the connection has received exactly `renderAll ts` -/
+theorem writer_tokens_bytes (ts : List Tok) (cs : List Call) (hw : cs.filter isWrite = ts.map callOfTok)
+    (hn : NoFailure cs) :
+    ∃ s, run RespWriter.new (cs ++ [.flush none]) = .ok s ∧ s.sink.toList = renderAll ts ∧ s.w = 0 := by
+  have hsome : ∀ c ∈ cs ++ [Call.flush none], (encode c).isSome := by
+    intro c hc
+    rcases List.mem_append.mp hc with hc | hc
+    · exact Proofs.RespWriter.encode_isSome_of_schedule cs ts hw c hc
+    · simp only [List.mem_singleton] at hc; subst hc; rfl
+  obtain ⟨s, e⟩ := writer_total _ hsome
+  obtain ⟨h1, h2, _⟩ := flush_exactly_once cs s hn e
+  refine ⟨s, e, ?_, h2⟩
+  rw [h1, Proofs.RespWriter.written_filter, hw, Proofs.RespWriter.written_tokens]
+
+/-- **end to end**: ANY pipeline of ANY commands from a fresh server on any store, the reply tokens written
+    through the Writer under ANY flush schedule: the byte stream the connection receives parses — reading
+    reply after reply with the reference RESP reader — into exactly one value per command, in order, then
+    the marker's, and nothing is left over. (`pipeline_in_sync_full` through the buffer.) -/
+theorem writer_pipeline_in_sync (st : MState) (cmds : List Cmd) (marker : Cmd) (cs : List Call)
+    (hw : cs.filter isWrite = ((run fullTable { store := st } (cmds ++ [marker])).2.flatten).map callOfTok)
+    (hn : NoFailure cs) :
+    ∃ (s : Writer) (vs : List Value) (vm : Value),
+      RespWriter.run RespWriter.new (cs ++ [.flush none]) = .ok s ∧ s.w = 0 ∧ vs.length = cmds.length ∧
+      (run fullTable { store := st } cmds).2.map toValue = vs.map some ∧
+      toValue (step fullTable (run fullTable { store := st } cmds).1 marker).2 = some vm ∧
+      parseMany (cmds.length + 1) s.sink.toList = some (vs ++ [vm], []) := by
+  obtain ⟨s, e, hs, hw0⟩ := writer_tokens_bytes _ cs hw hn
+  obtain ⟨vs, vm, h1, h2, h3, h4⟩ := pipeline_in_sync_full st cmds marker []
+  refine ⟨s, vs, vm, e, hw0, h1, h2, h3, ?_⟩
+  rw [hs]
+  have : renderAll (run fullTable { store := st } (cmds ++ [marker])).2.flatten =
+      (run fullTable { store := st } (cmds ++ [marker])).2.flatMap renderAll := by
+    generalize (run fullTable { store := st } (cmds ++ [marker])).2 = xs
+    induction xs with
+    | nil => rfl
+    | cons x xs ih => simp only [List.flatten_cons, List.flatMap_cons, ← ih]; simp [renderAll, List.flatMap_append]
+  rw [this]
+  simpa using h4
+
+/-- failing Flushes never lose, reorder or corrupt buffered bytes, wherever they occur: after the last
+    SUCCESSFUL Flush (before it anything may have happened, failures included) the buffer below `w` is exactly
+    what has been written since, and the flag says whether an error was among it -/
+theorem pending_is_written_since_last_flush (pre post : List Call) (s : Writer)
+    (hp : ∀ c ∈ post, c ≠ .flush none)
+    (e : RespWriter.run RespWriter.new (pre ++ [.flush none] ++ post) = .ok s) :
+    s.buf.toList.take s.w = post.flatMap written ∧ s.err = post.any isError := by
+  obtain ⟨h1, _, _⟩ := Proofs.RespWriter.run_ok_abs Proofs.RespWriter.new_inv e
+  rw [Proofs.RespWriter.abs_new, Proofs.RespWriter.AW.run_append, Proofs.RespWriter.AW.run_append] at h1
+  cases ha : AW.run {} pre with
+  | none => rw [ha] at h1; cases h1
+  | some a1 =>
+    rw [ha] at h1
+    simp only [Option.bind_some, AW.run, AW.step] at h1
+    obtain ⟨h2, h3⟩ := Proofs.RespWriter.AW.run_no_flush post _ (abs s) h1 hp
+    simp only [abs] at h2 h3
+    exact ⟨by simpa using h2, by simpa using h3⟩
+
+/-! ### the writer as the connection loop uses it (redis/server.go handleConn, nodis.go Serve) -/
+
+/-- what `conn.HasError()` feeds into MULTI's error bit: writing the tokens `ts` of a reply raises the flag
+    exactly when one of them is an error token (`toks.any isErr` in Model/Conn.lean `afterHandler`), on
+    top of what the flag was; the tokens' rendering is appended to the pending bytes, nothing is sent -/
+theorem writer_has_error_is_any_err (s : Writer) (h : WriterInv s) (ts : List Tok) :
+    ∃ s', RespWriter.run s (ts.map callOfTok) = .ok s' ∧ WriterInv s' ∧
+      s'.err = (s.err || ts.any Server.isErr) ∧
+      s'.buf.toList.take s'.w = s.buf.toList.take s.w ++ renderAll ts ∧ s'.sink.toList = s.sink.toList := by
+  have := Proofs.RespWriter.run_refines (ts.map callOfTok) s h
+  rw [Proofs.RespWriter.AW.run_tokens] at this
+  obtain ⟨s', e, ha, hi, _⟩ := this
+  exact ⟨s', e, hi, congrArg AW.err ha, congrArg AW.pending ha, congrArg AW.delivered ha⟩
+
+/-- the connection loop (`handler(c, cmd); _ = c.Flush()` for every command) on a connection that does not
+    fail: while command j is being answered the connection has received exactly the complete replies of
+    the commands before it, the buffer holds exactly the reply of command j so far, and `HasError()` at
+    the end of the handler is "this reply contains an error token" — no leftover from earlier commands -/
+theorem serve_loop_has_error (pre : List (List Tok)) (r : List Tok) :
+    ∃ s, RespWriter.run RespWriter.new (serveCalls pre ++ r.map callOfTok) = .ok s ∧
+      s.err = r.any Server.isErr ∧ s.sink.toList = pre.flatMap renderAll ∧ s.buf.toList.take s.w = renderAll r := by
+  have := writer_run_refines (serveCalls pre ++ r.map callOfTok)
+  rw [Proofs.RespWriter.AW.run_append, Proofs.RespWriter.AW.run_serve, Option.bind_some,
+    Proofs.RespWriter.AW.run_tokens] at this
+  obtain ⟨s, e, ha, _⟩ := this
+  refine ⟨s, e, ?_, ?_, ?_⟩
+  · have := congrArg AW.err ha; simp only [abs] at this; rw [this]; cases pre <;> simp
+  · have := congrArg AW.delivered ha; simp only [abs] at this; rw [this]; cases pre <;> simp
+  · have := congrArg AW.pending ha; simp only [abs] at this; rw [this]; cases pre <;> simp
+
+/-- … and after the last Flush everything has been delivered, reply after reply, nothing is pending -/
+theorem serve_loop_delivers (rs : List (List Tok)) (hne : rs ≠ []) :
+    ∃ s, RespWriter.run RespWriter.new (serveCalls rs) = .ok s ∧
+      s.sink.toList = rs.flatMap renderAll ∧ s.w = 0 ∧ s.err = false := by
+  have := writer_run_refines (serveCalls rs)
+  rw [Proofs.RespWriter.AW.run_serve] at this
+  obtain ⟨s, e, ha, hi⟩ := this
+  have hemp : rs.isEmpty = false := by cases rs with | nil => exact absurd rfl hne | cons _ _ => rfl
+  rw [hemp] at ha
+  simp only [Bool.false_eq_true, if_false] at ha
+  refine ⟨s, e, ?_, ?_, congrArg AW.err ha⟩
+  · have := congrArg AW.delivered ha; simp only [abs] at this; rw [this]; simp
+  · have hl := Proofs.RespWriter.pending_length s hi
+    rw [ha] at hl
+    simpa using hl.symm
+
+/-- **end to end with the schedule the server really uses**: any pipeline of any commands from a fresh server
+    on any store, each reply written through the Writer and flushed after its command: the byte stream
+    parses into exactly one value per command, in order, then the marker's; nothing left over -/
+theorem serve_loop_in_sync (st : MState) (cmds : List Cmd) (marker : Cmd) :
+    ∃ (s : Writer) (vs : List Value) (vm : Value),
+      RespWriter.run RespWriter.new (serveCalls (run fullTable { store := st } (cmds ++ [marker])).2) = .ok s ∧
+      s.w = 0 ∧ s.err = false ∧ vs.length = cmds.length ∧
+      (run fullTable { store := st } cmds).2.map toValue = vs.map some ∧
+      toValue (step fullTable (run fullTable { store := st } cmds).1 marker).2 = some vm ∧
+      parseMany (cmds.length + 1) s.sink.toList = some (vs ++ [vm], []) := by
+  have hne : (run fullTable { store := st } (cmds ++ [marker])).2 ≠ [] := by
+    intro h
+    have := run_replies_length fullTable (cmds ++ [marker]) { store := st }
+    rw [h] at this
+    simp at this
+  obtain ⟨s, e, hs, hw, he⟩ := serve_loop_delivers _ hne
+  obtain ⟨vs, vm, h1, h2, h3, h4⟩ := pipeline_in_sync_full st cmds marker []
+  refine ⟨s, vs, vm, e, hw, he, h1, h2, h3, ?_⟩
+  rw [hs]
+  simpa using h4
+
+/-! ### independent of the growth policy: the abstract buffered writer alone
+
+  `writer_refines_spec` is the only place where `buf`, `w` and `grow` occur. What follows holds for every
+  implementation that refines the abstract writer, whatever its buffer management (the correspondence check
+  reports a change of the buffer management alone as `writer-representation-drift`, not as a violation). -/
+
+/-- abstract writer, connection not failing: delivered ++ pending = everything written, in order -/
+theorem buffered_writer_bytes (cs : List Call) (a : AW) (e : AW.run {} cs = some a) (hn : NoFailure cs) :
+    a.delivered ++ a.pending = cs.flatMap written := by
+  have := Proofs.RespWriter.AW.run_content cs {} a e hn
+  simpa using this
+
+/-- abstract writer: after a successful Flush exactly everything written has been delivered, once -/
+theorem buffered_writer_flush_exactly_once (pre : List Call) (a : AW) (hn : NoFailure pre)
+    (e : AW.run {} (pre ++ [.flush none]) = some a) :
+    a.delivered = pre.flatMap written ∧ a.pending = [] ∧ a.err = false := by
+  rw [Proofs.RespWriter.AW.run_append] at e
+  cases h1 : AW.run {} pre with
+  | none => rw [h1] at e; cases e
+  | some a1 =>
+    rw [h1] at e
+    simp only [Option.bind_some, AW.run, AW.step] at e
+    cases e
+    exact ⟨buffered_writer_bytes pre a1 h1 hn, rfl, rfl⟩
+
+/-- abstract writer: the pipeline theorem for any flush schedule -/
+theorem buffered_writer_pipeline_in_sync (st : MState) (cmds : List Cmd) (marker : Cmd) (cs : List Call) (a : AW)
+    (hw : cs.filter isWrite = ((run fullTable { store := st } (cmds ++ [marker])).2.flatten).map callOfTok)
+    (hn : NoFailure cs) (e : AW.run {} (cs ++ [.flush none]) = some a) :
+    ∃ (vs : List Value) (vm : Value), vs.length = cmds.length ∧
+      (run fullTable { store := st } cmds).2.map toValue = vs.map some ∧
+      toValue (step fullTable (run fullTable { store := st } cmds).1 marker).2 = some vm ∧
+      parseMany (cmds.length + 1) a.delivered = some (vs ++ [vm], []) ∧ a.pending = [] := by
+  obtain ⟨hd, hp, _⟩ := buffered_writer_flush_exactly_once cs a hn e
+  obtain ⟨vs, vm, h1, h2, h3, h4⟩ := pipeline_in_sync_full st cmds marker []
+  refine ⟨vs, vm, h1, h2, h3, ?_, hp⟩
+  rw [hd, Proofs.RespWriter.written_filter, hw, Proofs.RespWriter.written_tokens]
+  have : renderAll (run fullTable { store := st } (cmds ++ [marker])).2.flatten =
+      (run fullTable { store := st } (cmds ++ [marker])).2.flatMap renderAll := by
+    generalize (run fullTable { store := st } (cmds ++ [marker])).2 = xs
+    induction xs with
+    | nil => rfl
+    | cons x xs ih => simp only [List.flatten_cons, List.flatMap_cons, ← ih]; simp [renderAll, List.flatMap_append]
+  rw [this]
+  simpa using h4
+
+/-! ### non-vacuity of the hypotheses above -/
+
+example : WriterInv RespWriter.new := writer_inv_new
+/-- a non-trivial schedule: an array header, a Flush in the middle of the reply, a bulk string with CR LF in
+    it, HasError and Bytes in between; it has no failing Flush and writes the tokens of `[arr 1, bulk "\r\n"]` -/
+example : NoFailure [Call.array 1, .flush none, .hasError, .bulk [13, 10], .bytes] ∧
+    [Call.array 1, .flush none, .hasError, .bulk [13, 10], .bytes].filter isWrite = [Tok.arr 1, Tok.bulk [13, 10]].map callOfTok := by
+  constructor
+  · intro c hc k; simp at hc; rcases hc with rfl | rfl | rfl | rfl | rfl <;> simp
+  · decide
+/-- … and what the connection gets for it -/
+example : ∃ s, RespWriter.run RespWriter.new ([Call.array 1, .flush none, .hasError, .bulk [13, 10], .bytes] ++ [.flush none]) = .ok s ∧
+    s.sink.toList = Bytes.ofString "*1\r\n$2\r\n\r\n\r\n" ∧ s.w = 0 := by
+  obtain ⟨s, e, h, w⟩ := writer_tokens_bytes [Tok.arr 1, Tok.bulk [13, 10]] [Call.array 1, .flush none, .hasError, .bulk [13, 10], .bytes]
+    (by decide) (by intro c hc k; simp at hc; rcases hc with rfl | rfl | rfl | rfl | rfl <;> simp)
+  exact ⟨s, e, by rw [h]; decide +kernel, w⟩
+/-- `pending_is_written_since_last_flush` on a run with failing Flushes before and after the successful one -/
+example : ∃ s, RespWriter.run RespWriter.new ([Call.ok, .flush (some 3)] ++ [.flush none] ++ [.error [120], .flush (some 0), .int64 1]) = .ok s ∧
+    s.buf.toList.take s.w = Bytes.ofString "-x\r\n:1\r\n" ∧ s.err = true := by
+  obtain ⟨s, e⟩ := writer_total ([Call.ok, .flush (some 3)] ++ [.flush none] ++ [.error [120], .flush (some 0), .int64 1]) (by decide)
+  obtain ⟨h1, h2⟩ := pending_is_written_since_last_flush [Call.ok, .flush (some 3)] [.error [120], .flush (some 0), .int64 1] s (by decide) e
+  exact ⟨s, e, by rw [h1]; decide +kernel, by rw [h2]; decide⟩
+/-- the abstract writer on a concrete run with an error reply: flag raised by WriteError, lowered by Flush -/
+example : AW.run {} [.error (Bytes.ofString "ERR x"), .int64 (-5), .hasError] =
+    some { delivered := [], pending := Bytes.ofString "-ERR x\r\n:-5\r\n", err := true } := by decide +kernel
+example : AW.run {} [.error (Bytes.ofString "ERR x"), .flush none, .uint64 18446744073709551615] =
+    some { delivered := Bytes.ofString "-ERR x\r\n", pending := Bytes.ofString ":18446744073709551615\r\n", err := false } := by decide +kernel
+
+end Writer
 
 end NodisVerif.C16
